@@ -83,6 +83,9 @@ class Engine:
             cb = self.prog.local_callee_body(t.callee)
             if cb is not None and self.writes(cb, seen):
                 return True
+        for cl in self.prog.closures_of(b):
+            if self.writes(cl, seen):
+                return True      # the writing happens in a closure (`try_for_each(|p| w.write_all(p))`)
         return False
 
     # ---- naming of a written value
@@ -217,6 +220,14 @@ class Engine:
             return [(('h', d if d is not None else '?'),)]
         if c.path in WRITE_NOOP:
             return [()]
+        if c.name in ('try_for_each', 'for_each') and 'iter' in c.path.lower() and len(t.args) == 2:
+            # `pieces.try_for_each(|p| writer.write_all(p))`: a loop written as an adaptor; its body is the closure
+            from rules_par import closure_of_arg
+            ccb = closure_of_arg(self.prog, b, t, 1)
+            if ccb is not None and self.writes(ccb):
+                src = self.iter_source(b, t.args[0], binding, 1)
+                inner = self.templates(ccb, {2: 'item(%s)' % src})
+                return [(('star', frozenset(Tpl.norm(i) for i in inner)),)]
         if c.path.startswith('std::io::Write::'):
             return [(('unk', c.path),)]
         cb = self.prog.local_callee_body(c)
@@ -541,7 +552,7 @@ def tpl4(prog, R):
                             end_ok = all(q[0] == 'arg' and [f[1] for f in q[-1]] == ['buf_pos', 'pos', '1'] for q in hi_r) and bool(hi_r)
                         else:
                             start_ok = all(q[0] == 'arg' and [f[1] for f in q[-1]] == ['buf_pos', 'start'] for q in lo_r) and bool(lo_r)
-                            end_ok = all(q[0] == 'call' and q[1].callee.name == 'last' for q in hi_r) and bool(hi_r)
+                            end_ok = all(q[0] == 'call' and q[1].callee.name in ('last', 'split_last') for q in hi_r) and bool(hi_r)
                             if end_ok:
                                 for q in hi_r:
                                     rr = roots_of(b, q[1].args[0], du, through_calls=identity_through)
@@ -585,7 +596,13 @@ def tpl4(prog, R):
                                 if nl[0][0] not in b.cfg.reach_from(lf_arm, include_start=True):
                                     guard = True
                 cond_ok = nl_ok and order and guard
-            R.add('TPL-4', b, 'extent-and-terminator', start_ok and end_ok and cond_ok, site(b, data[0][1].line),
+            helper_end = False
+            if fmt == 'fasta' and not end_ok:
+                try:
+                    helper_end = bool(hi_r) and all(q[0] == 'call' and prog.local_callee_body(q[1].callee) is not None for q in hi_r)
+                except NameError:
+                    helper_end = False
+            R.add('TPL-4', b, 'extent-and-terminator', start_ok and end_ok and cond_ok, site(b, data[0][1].line), undecided=(start_ok and cond_ok and not end_ok and helper_end), detail=
                   'writes %s then %s"\\n": start at record start %s, end at last line end %s, terminator rule %s' % (desc, '' if fmt == 'fastq' else 'conditionally ', start_ok, end_ok, cond_ok))
         elif not data and not nl and not others:
             # the writes happen in private helpers: fall back to the interprocedural template of the function
